@@ -75,16 +75,16 @@ def zeroPt : Pt := ⟨"0.0", "0.0"⟩
 def centerC (P : Params) (dyn : Bool) : Codec Pt :=
   Codec.optChild "center" (ptE P) (fun c => !dyn || !(isZeroRepr c.x && isZeroRepr c.y)) zeroPt
 
-/-- the `orientation` child of a rectangle, written with `str()` -/
-def orientC (dyn : Bool) : Codec Real :=
-  Codec.optChild "orientation" (ECodec.ofText Prim.decRepr) (fun o => !dyn || !isZeroRepr o) "0.0"
+/-- the `orientation` child of a rectangle, written with `decimal_to_str` (all digits, plain notation) -/
+def orientC (P : Params) (dyn : Bool) : Codec Real :=
+  Codec.optChild "orientation" (ECodec.ofText (Prim.decPlain P)) (fun o => !dyn || !isZeroRepr o) "0.0"
 
 def rectE (P : Params) (dyn : Bool) : ECodec (Real × Real × Real × Pt) :=
-  ECodec.ofKids (Codec.pair (Codec.child "length" (ECodec.ofText Prim.decRepr))
-    (Codec.pair (Codec.child "width" (ECodec.ofText Prim.decRepr)) (Codec.pair (orientC dyn) (centerC P dyn))))
+  ECodec.ofKids (Codec.pair (Codec.child "length" (ECodec.ofText (Prim.decPlain P)))
+    (Codec.pair (Codec.child "width" (ECodec.ofText (Prim.decPlain P))) (Codec.pair (orientC P dyn) (centerC P dyn))))
 
 def circE (P : Params) (dyn : Bool) : ECodec (Real × Pt) :=
-  ECodec.ofKids (Codec.pair (Codec.child "radius" (ECodec.ofText Prim.decRepr)) (centerC P dyn))
+  ECodec.ofKids (Codec.pair (Codec.child "radius" (ECodec.ofText (Prim.decPlain P))) (centerC P dyn))
 
 def polyE (P : Params) : ECodec (List Pt) := ECodec.ofKids (Codec.many "point" (ptE P))
 
